@@ -2,6 +2,7 @@
 package rules
 
 import (
+	"reflect"
 	"fmt"
 	"go/constant"
 	"go/token"
@@ -746,4 +747,63 @@ func sameValue(r *core.Run, a, b ssa.Value, depth int) bool {
 		return ok && types.Identical(x.Type(), y.Type()) && sameValue(r, x.X, y.X, depth+1)
 	}
 	return false
+}
+
+// pagingElements: the XML element names of the paging protocol. A client
+// continues a listing by echoing these elements; they are fixed by the S3 API,
+// not by this code base, so a different spelling is a protocol change.
+var pagingElements = map[string]map[string]string{
+	"ListBucketResultBase":           {"IsTruncated": "IsTruncated"},
+	"ListBucketResult":               {"Marker": "Marker", "NextMarker": "NextMarker"},
+	"ListBucketResultV2":             {"NextContinuationToken": "NextContinuationToken"},
+	"ListBucketVersionsResult":       {"IsTruncated": "IsTruncated", "KeyMarker": "KeyMarker", "NextKeyMarker": "NextKeyMarker", "VersionIDMarker": "VersionIdMarker", "NextVersionIDMarker": "NextVersionIdMarker"},
+	"ListMultipartUploadsResult":     {"IsTruncated": "IsTruncated", "KeyMarker": "KeyMarker", "UploadIDMarker": "UploadIdMarker", "NextKeyMarker": "NextKeyMarker", "NextUploadIDMarker": "NextUploadIdMarker"},
+	"ListMultipartUploadPartsResult": {"IsTruncated": "IsTruncated", "PartNumberMarker": "PartNumberMarker", "NextPartNumberMarker": "NextPartNumberMarker"},
+}
+
+// rulePagingElements checks the xml struct tags of the paging fields of the
+// given result types (E7: schema agreement with the wire protocol).
+func rulePagingElements(r *core.Run, id string, typesToCheck ...string) {
+	r.Rule(id, "the paging fields of the listing results are serialised under the element names the S3 protocol defines (IsTruncated, NextMarker, NextContinuationToken, NextKeyMarker, NextVersionIdMarker, NextUploadIdMarker, NextPartNumberMarker, …): a client resumes by reading exactly these elements — under another name it sees no marker and starts the same page again")
+	pk := r.P.Pkgs["gofakes3"]
+	if pk == nil || pk.Types == nil {
+		r.Unresolved("%s: package gofakes3 not loaded", id)
+		return
+	}
+	n := 0
+	for _, tn := range typesToCheck {
+		obj := pk.Types.Scope().Lookup(tn)
+		if obj == nil {
+			r.Unresolved("%s: type %s not found", id, tn)
+			continue
+		}
+		st, ok := obj.Type().Underlying().(*types.Struct)
+		if !ok {
+			continue
+		}
+		for fld, want := range pagingElements[tn] {
+			found := false
+			for i := 0; i < st.NumFields(); i++ {
+				if st.Field(i).Name() != fld {
+					continue
+				}
+				found = true
+				n++
+				tag := reflectTag(st.Tag(i), "xml")
+				name := strings.Split(tag, ",")[0]
+				r.Check(name == want, id, key("gofakes3."+tn, "element name", fld), r.P.Pos(st.Field(i).Pos()), "<"+want+">", "the field "+tn+"."+fld+" is serialised as <"+name+"> instead of <"+want+">: clients do not find the continuation marker and page forever (or stop early)")
+			}
+			if !found {
+				r.Unresolved("%s: field %s.%s not found", id, tn, fld)
+			}
+		}
+	}
+	if n == 0 {
+		r.Unresolved("%s: no paging field examined", id)
+	}
+}
+
+// reflectTag extracts key:"value" from a struct tag.
+func reflectTag(tag, k string) string {
+	return reflect.StructTag(tag).Get(k)
 }
